@@ -11,6 +11,8 @@ FUNCTIONS = [
     'circus.commands.base:error',
     'circus.util:TransformableFuture._internal_callback',
     'circus.util:TransformableFuture.exception',
+    # client half: only the reply bearing this call's id is returned
+    'circus.client:CircusClient.call',
 ]
 LEMMAS = []
 FRAMES = [
@@ -26,7 +28,9 @@ ASSUMPTIONS = ['A-PY', 'T-STDLIB json.loads / json.dumps', 'T-ZMQ stream.send qu
                'T-TORNADO: a done-callback runs exactly once when the future completes']
 TRUSTED = []
 NOT_DECIDED = ['ZeroMQ framing/delivery', 'reply content beyond id and status',
-               'client library (CircusClient.call): not under contract']
+               'AsyncCircusClient.call (tornado stream variant of the client) is not under contract; a reply that is JSON but not an '
+               'object makes CircusClient.call raise AttributeError (allowed by its contract, never sent by the daemon)',
+               'client timeout accuracy (Poller.poll is trusted)']
 DESIGN_REF = 'DESIGN.md section 8, C06'
 TECHNIQUE = 'contract-based deductive verification (dispatch over a symbolic JSON value; ghost reply log)'
 LEVEL_TEXT = ('For every byte string and every JSON document the real Controller.dispatch returns normally and '
